@@ -18,6 +18,19 @@ type c18Write struct {
 	variable bool
 	t        time.Time
 	tag      int32
+	n        int // rows of the request, all in the interval of t, one second apart, tags tag..tag+n-1 (0 = 1)
+}
+
+func (wr c18Write) rows() ([]time.Time, []int32) {
+	n := wr.n
+	if n == 0 {
+		n = 1
+	}
+	ts, tags := make([]time.Time, n), make([]int32, n)
+	for i := range ts {
+		ts[i], tags[i] = wr.t.Add(time.Duration(i)*time.Second), wr.tag+int32(i)
+	}
+	return ts, tags
 }
 
 type c18Thread struct {
@@ -28,11 +41,12 @@ type c18Thread struct {
 
 func c18Scenario(name string, pre []c18Write, threads []c18Thread) *scenario {
 	doWrite := func(w *world.World, wr c18Write) error {
-		cols := []any{[]int32{wr.tag}, []int32{wr.tag}}
+		ts, tags := wr.rows()
+		cols := []any{tags, append([]int32{}, tags...)}
 		if wr.variable {
-			return w.WriteCS(wr.key, csVar([]time.Time{wr.t}, []string{"V", "W"}, cols), true)
+			return w.WriteCS(wr.key, csVar(ts, []string{"V", "W"}, cols), true)
 		}
-		return w.WriteCS(wr.key, csFixed([]time.Time{wr.t}, []string{"V", "W"}, cols), false)
+		return w.WriteCS(wr.key, csFixed(ts, []string{"V", "W"}, cols), false)
 	}
 	return &scenario{
 		races: true, // C18: "the server has no data races"
@@ -88,7 +102,10 @@ func c18Scenario(name string, pre []c18Write, threads []c18Thread) *scenario {
 				if issued[wr.key] == nil {
 					issued[wr.key] = map[string]int{}
 				}
-				issued[wr.key][fmt.Sprintf("%d/%d", wr.tag, wr.tag)]++
+				_, tags := wr.rows()
+				for _, tg := range tags {
+					issued[wr.key][fmt.Sprintf("%d/%d", tg, tg)]++
+				}
 				varKey[wr.key] = wr.variable
 			}
 			for _, wr := range pre {
@@ -151,31 +168,38 @@ var (
 
 var c18Scens = []*scenario{
 	c18Scenario("two writers append to one variable interval that already holds data + a reader",
-		[]c18Write{{c18Var, true, c18T0.Add(5 * time.Minute), 1}},
+		[]c18Write{{c18Var, true, c18T0.Add(5 * time.Minute), 1, 0}},
 		[]c18Thread{
-			{name: "W1", writes: []c18Write{{c18Var, true, c18T0.Add(10 * time.Minute), 100}}},
-			{name: "W2", writes: []c18Write{{c18Var, true, c18T0.Add(20 * time.Minute), 200}}},
+			{name: "W1", writes: []c18Write{{c18Var, true, c18T0.Add(10 * time.Minute), 100, 0}}},
+			{name: "W2", writes: []c18Write{{c18Var, true, c18T0.Add(20 * time.Minute), 200, 0}}},
 			{name: "R", reads: []string{c18Var, c18Var}},
 		}),
 	c18Scenario("two writers overwrite one fixed interval + a reader",
-		[]c18Write{{c18Fix, false, c18T0, 1}},
+		[]c18Write{{c18Fix, false, c18T0, 1, 0}},
 		[]c18Thread{
-			{name: "W1", writes: []c18Write{{c18Fix, false, c18T0, 100}}},
-			{name: "W2", writes: []c18Write{{c18Fix, false, c18T0, 200}}},
+			{name: "W1", writes: []c18Write{{c18Fix, false, c18T0, 100, 0}}},
+			{name: "W2", writes: []c18Write{{c18Fix, false, c18T0, 200, 0}}},
 			{name: "R", reads: []string{c18Fix, c18Fix}},
 		}),
 	c18Scenario("one writer + two readers of the same and of another bucket",
-		[]c18Write{{c18Fix, false, c18T0, 1}, {c18Oth, false, c18T0, 2}, {c18Var, true, c18T0.Add(5 * time.Minute), 3}},
+		[]c18Write{{c18Fix, false, c18T0, 1, 0}, {c18Oth, false, c18T0, 2, 0}, {c18Var, true, c18T0.Add(5 * time.Minute), 3, 0}},
 		[]c18Thread{
-			{name: "W1", writes: []c18Write{{c18Var, true, c18T0.Add(10 * time.Minute), 100}, {c18Fix, false, c18T0.Add(time.Hour), 101}}},
+			{name: "W1", writes: []c18Write{{c18Var, true, c18T0.Add(10 * time.Minute), 100, 0}, {c18Fix, false, c18T0.Add(time.Hour), 101, 0}}},
 			{name: "R1", reads: []string{c18Var, c18Fix}},
 			{name: "R2", reads: []string{c18Oth, c18Var}},
 		}),
 	c18Scenario("a writer adds a new year to the bucket being read",
-		[]c18Write{{c18Fix, false, c18T0, 1}},
+		[]c18Write{{c18Fix, false, c18T0, 1, 0}},
 		[]c18Thread{
-			{name: "W1", writes: []c18Write{{c18Fix, false, c18T0.AddDate(1, 0, 0), 100}}},
+			{name: "W1", writes: []c18Write{{c18Fix, false, c18T0.AddDate(1, 0, 0), 100, 0}}},
 			{name: "R", reads: []string{c18Fix, c18Fix}},
+		}),
+	c18Scenario("a request with several rows in one interval + a writer of another bucket (whose flush request can land mid-request) + a reader",
+		[]c18Write{{key: c18Var, variable: true, t: c18T0.Add(5 * time.Minute), tag: 1}},
+		[]c18Thread{
+			{name: "W1", writes: []c18Write{{key: c18Var, variable: true, t: c18T0.Add(10 * time.Minute), tag: 100, n: 3}}},
+			{name: "W2", writes: []c18Write{{key: c18Oth, t: c18T0, tag: 200}}},
+			{name: "R", reads: []string{c18Var}},
 		}),
 }
 
@@ -184,17 +208,17 @@ func init() {
 		ID:    "C18",
 		Level: "model_checking",
 		Rule: "four thread sets on the real server with the SyncWAL loop and the WAL timer (<=1 fire): (1) two writers appending to one variable interval that already holds data + a reader issuing two all-time queries; (2) two writers overwriting one fixed interval + a reader; " +
-			"(3) one writer (variable then fixed write) + two readers of the same and of another bucket; (4) a writer adding a new year file to the bucket being read; ALL interleavings with <=2 deviations (thorough: 3; thread set 3: 1, thorough 2) with scheduling points at every channel/lock/device operation (so a reader can run between the data write and the index write). " +
+			"(3) one writer (variable then fixed write) + two readers of the same and of another bucket; (4) a writer adding a new year file to the bucket being read; (5) a request of three rows in one variable interval + a writer of another bucket + a reader; ALL interleavings with <=2 deviations (thorough: 3; thread sets 3 and 5: 1, thorough 2) with scheduling points at every channel/lock/device operation (so a reader can run between the data write and the index write). " +
 			"oracle per execution: no panic, no deadlock, no query error, every row complete (both columns equal) and from an issued write, no variable row more often than written, and no pair of conflicting accesses that is unordered by the happens-before relation of the code's own synchronisation (data race). non-trivial = schedules with >=1 deviation",
 		Assume: []string{"data races: happens-before detection (rt/vrt/hb.go) over reads/writes of struct fields and package-level variables of the instrumented packages on every explored schedule; accesses to slice/map elements and inside third-party packages are not tracked", "UTC"},
 		QuickMax: 8 * time.Minute, ThorMax: 45 * time.Minute,
 		Race: &mc.RaceSpec{Scenarios: []string{"mixed", "same-bucket", "new-buckets"}, Quick: 6, Thorough: 60},
 	}, schedEnum(c18Scens, func(c *mc.Ctx, si int) int {
 		switch {
-		case c.Thorough() && si != 2:
+		case c.Thorough() && si != 2 && si != 4:
 			return 3
-		case !c.Thorough() && si == 2:
-			return 1 // writer + two readers with two queries each: one deviation in the quick tier
+		case !c.Thorough() && (si == 2 || si == 4):
+			return 1 // writer + two readers with two queries each / the three-row request: one deviation in the quick tier
 		}
 		return 2
 	}), schedRun(c18Scens, "C18"))
